@@ -295,7 +295,7 @@ func TestC13(t *testing.T) {
 	r := rep.New(t, "C13")
 	defer r.Flush()
 	r.Rule("PRNG cases = (writer role, write/read buffer size, pool, read fragmentation, 1-20 messages each with kind, length class around 0/125/126/buffer/2*buffer/65535/65536/large, write API, chunking); non-trivial and distinct = distinct (api, kind, length class, buffer size, role, fragmentation class) tuples actually round-tripped")
-	n := r.N(2500, 40000)
+	n := r.N(2500, 300000)
 	rng := r.Rand(13)
 	for i := 0; i < n; i++ {
 		c := genWTCase(rng, true)
@@ -386,7 +386,7 @@ func TestC14(t *testing.T) {
 	r := rep.New(t, "C14")
 	defer r.Flush()
 	r.Rule("encoder: same generator as C13, captured wire bytes compared byte-for-byte with the reference encoder (one minimal frame per message); decoder: reference-encoded streams of 1-50 frames with PRNG length forms (minimal, 16-bit, 64-bit non-minimal, zero length) must yield the same messages; distinct = (direction, api or length form, kind, length class) tuples")
-	n := r.N(2000, 30000)
+	n := r.N(2000, 180000)
 	rng := r.Rand(14)
 	for i := 0; i < n; i++ {
 		c := genWTCase(rng, true)
@@ -427,7 +427,7 @@ func TestC14(t *testing.T) {
 		}
 	}
 	// decoder direction
-	nd := r.N(3000, 60000)
+	nd := r.N(3000, 360000)
 	for i := 0; i < nd; i++ {
 		nf := 1 + rng.IntN(12)
 		if rng.IntN(10) == 0 {
